@@ -70,35 +70,33 @@ Print Assumptions C10_to_dict_override.
 
 (* ---- pretty() ------------------------------------------------------- *)
 
-(* one statement per level, in order; each is the level's template text, is
-   non-empty unless the level is an iterable_item_moved, and names the level's
-   path unless it is a set item or a moved item *)
+(* one statement per level, in order; each is the level's template text and,
+   unless the level is an iterable_item_moved, is non-empty and names the
+   level's path (for a set item: the path of the set) *)
 Theorem C10_pretty_one_per_change :
   forall verbose es,
     List.length (pretty verbose es) = List.length es /\
     Forall2 (fun e s => s = pretty_of verbose e /\
                         (ekind e <> KIterMoved -> s <> []) /\
-                        (is_set_kind (ekind e) = false -> ekind e <> KIterMoved ->
-                         contains_sub (render (ep1 e)) s = true))
+                        (ekind e <> KIterMoved -> contains_sub (render (ep1 e)) s = true))
             es (pretty verbose es).
 Proof. intros. split; [apply pretty_length|apply pretty_per_change]. Qed.
 Print Assumptions C10_pretty_one_per_change.
 
-(* "every statement names the path of its change" is false: finding
-   C10-pretty-set-item-root, DeepDiff({'a': {1, 2}}, {'a': {1, 3}}) *)
-Theorem C10_pretty_names_path_refuted :
-  exists e, In e (w_run w_set_t1 w_set_t2 (fun _ _ _ => [])) /\ ekind e = KSetAdd /\
-            ep1 e = [PKey (AStr (s2p "a"))] /\
-            pretty_of 1 e = s2p "Item root[3] added to set." /\
-            contains_sub (render (ep1 e)) (pretty_of 1 e) = false.
-Proof. exact pretty_names_path_refuted. Qed.
-Print Assumptions C10_pretty_names_path_refuted.
-
-Theorem C10_pretty_names_path_partial :
-  forall verbose e, is_set_kind (ekind e) = false -> ekind e <> KIterMoved ->
+(* every statement of a level that is not an iterable_item_moved names the
+   level's path; former finding C10-pretty-set-item-root (fixed in 9738d10):
+   DeepDiff({'a': {1, 2}}, {'a': {1, 3}}) now prints root['a'][3] *)
+Theorem C10_pretty_names_path :
+  forall verbose e, ekind e <> KIterMoved ->
     contains_sub (render (ep1 e)) (pretty_of verbose e) = true.
 Proof. exact pretty_names_path. Qed.
-Print Assumptions C10_pretty_names_path_partial.
+Print Assumptions C10_pretty_names_path.
+
+Theorem C10_pretty_set_item_example :
+  exists e, In e (w_run w_set_t1 w_set_t2 (fun _ _ _ => [])) /\ ekind e = KSetAdd /\
+            pretty_of 1 e = s2p "Item root['a'][3] added to set.".
+Proof. exact pretty_set_item_example. Qed.
+Print Assumptions C10_pretty_set_item_example.
 
 (* "every statement is non-empty" is false of the model for a level of type
    iterable_item_moved (no template); such levels need iterable_compare_func,
